@@ -54,8 +54,8 @@ def plan(c, mc, policy, k_second, per_trace=60):
             for ci, part in enumerate(chunks(per_size[s], per_trace)):
                 steps = [dict(op="write", fail=[], kind="missing"), dict(op="inspect")]
                 for a, bs in part:
-                    steps += [dict(op="damage", kinds=a["kinds"], fresh=True), dict(op="inspect"),
-                              dict(op="read"), dict(op="inspect")]
+                    steps += [dict(op="damage", kinds=a["kinds"], fresh=True, skippable=True, span=3 + 3 * len(bs)),
+                              dict(op="inspect"), dict(op="read"), dict(op="inspect")]
                     firsts += 1
                     for b in bs:
                         steps += [dict(op="damage", kinds=b["kinds"], fresh=False), dict(op="read"), dict(op="inspect")]
@@ -82,7 +82,8 @@ def run(c):
     binp = c.build("erasureblob")
     traces, firsts, seconds, used_b = plan(c, mc, policy, k2)
     t0 = time.time()
-    got = eb.run_driver(c, binp, traces, "c26", workers=8, timeout=c.pick(900, 3000))
+    got = eb.run_driver(c, binp, traces, "c26", workers=8, timeout=c.pick(900, 3000),
+                        crash_streak_limit=c.pick(40, 200), crash_resample=c.pick(20, 15))
     vlib.log("driver: %d traces, %d first-level and %d second-level cases, %.1fs" % (len(got), firsts, seconds, time.time() - t0))
     t0 = time.time()
     devs = eb.validate(c, got)
@@ -139,11 +140,14 @@ def run(c):
             if seen[sig] == 1:
                 c.report(sig, what, eb.replay_of(dv))
     reads = sum(1 for _, evs in got for e in evs if e["ev"] == "Read")
+    used_b = len(set((evs[0]["d"], evs[0]["p"], tuple(e["kinds"])) for _, evs in got for e in evs
+                     if e["ev"] == "Damage" and not e["fresh"]))
+    firsts_run = sum(1 for _, evs in got for e in evs if e["ev"] == "Damage" and e["fresh"])
     c.sample(dict(trace=got[0][0], events=got[0][1][:9]))
     if seen:
         c.sample(dict(deviation_classes=dict(sorted(seen.items())[:12])))
     c.cov.update(dict(
-        exhaustive=True, evaluations=reads, first_level_cases=firsts, second_level_cases=seconds,
+        exhaustive=c.cov.get("reads_skipped_by_crash_gate", 0) == 0, exhaustive_enumeration=True, evaluations=reads, first_level_cases_planned=firsts, first_level_cases_run=firsts_run, second_level_cases_planned=seconds,
         second_level_assignments_used=used_b, premise_void_first_read_failed=premise_failed,
         segments_judged=judged_segments, inspections_after_repair_all_intact=repaired_ok, inspections=inspections,
         distinct_nontrivial=judged_segments, deviation_records=len(devs), deviation_classes=len(seen),
